@@ -5,6 +5,8 @@
 # Date   : March 29, 2019
 """Provide L2 behavioral RTLIR type check pass."""
 
+import ast
+
 from pymtl3 import Bits32, MetadataKey
 from pymtl3.passes.BasePass import PassMetadata
 from pymtl3.passes.rtlir.errors import PyMTLTypeError
@@ -66,6 +68,8 @@ class BehavioralRTLIRTypeCheckVisitorL2( BehavioralRTLIRTypeCheckVisitorL1 ):
     super().__init__(component, freevars, accessed, rtlir_getter)
     s.tmpvars = tmpvars
     s.tmpvars_is_explicit = {}
+    # temporaries that were given a signal itself ( x = s.w ), not a value
+    s.tmpvars_refer_to_signal = set()
     s.loopvar_nbits = {}
     s.loopvar_is_explicit = {}
     s.BinOp_max_nbits = (bir.Add, bir.Sub, bir.Mult, bir.Div, bir.Mod, bir.Pow,
@@ -123,6 +127,18 @@ class BehavioralRTLIRTypeCheckVisitorL2( BehavioralRTLIRTypeCheckVisitorL1 ):
 
     if isinstance( target, bir.TmpVar ):
       tmpvar_id = (target.name, target.upblk_name)
+
+      # In Python a local name that was given a signal ( x = s.w ) IS that
+      # signal, and x @= ... writes s.w. A temporary variable is a copy.
+      if isinstance( node.value, bir.TmpVar ):
+        if (node.value.name, node.value.upblk_name) in s.tmpvars_refer_to_signal:
+          s.tmpvars_refer_to_signal.add( tmpvar_id )
+      elif isinstance( rhs_type, ( rt.Port, rt.Wire ) ):
+        s.tmpvars_refer_to_signal.add( tmpvar_id )
+      if isinstance( node.ast, ast.AugAssign ) and tmpvar_id in s.tmpvars_refer_to_signal:
+        raise PyMTLTypeError( s.blk, node.ast,
+          f'{target.name} is a local name of a signal: writing the signal through it cannot be translated!' )
+
       if lhs_type != rt.NoneType() and lhs_type.get_dtype() != rhs_type.get_dtype():
         raise PyMTLTypeError( s.blk, node.ast,
           f'conflicting type {rhs_type} for temporary variable {node.targets[i].name}(LHS target#{i+1} of {lhs_type})!' )
